@@ -329,7 +329,7 @@ class Prop:
                   "started_) are covered only for calls on the owner thread; on a foreign thread they precede the abort.")
     rule = ("static: all rows/fields/confined operations of the generated table, re-evaluated in Python and compared with the Lean "
             "definitions, plus every single-edit mutant of every row (drop a lock, drop an owner fact, change access kind, root "
-            "kind, assert flag) compared between Python and Lean; dynamic: TSan scenarios (all 30 in both tiers; quick: 6 iterations, "
+            "kind, assert flag) compared between Python and Lean; dynamic: TSan scenarios (all 31 in both tiers, incl. latches that live only as long as their waiter needs them; quick: 6 iterations, "
             "one seed; thorough: 40 iterations, three derived seeds, plus ASan), abort children for every confined operation "
             "in foreign and owner mode (thorough: asserts on and NDEBUG); a case is non-trivial when the owning side did work "
             "(functors ran / the child reached READY); distinct = distinct (scenario|child|check, outcome) pairs")
